@@ -96,10 +96,15 @@ def collect(props, only):
         if not (os.path.exists(meta_p) and os.path.exists(patch_p)):
             continue
         meta = json.load(open(meta_p))
-        if meta.get("property") not in props:
-            continue
-        items.append({"name": "seeded/" + os.path.basename(d), "property": meta["property"], "description": meta.get("what", ""), "expect": meta.get("expect", "caught"),
-                      "patch_file": patch_p})
+        targets = [meta.get("property")]
+        if meta.get("expect") == "survives" and meta.get("kind", "").startswith("behaviour-preserving"):
+            targets = ["C11", "C15", "C16"]  # a benign refactor must keep EVERY check silent
+        for prop in targets:
+            if prop not in props:
+                continue
+            suffix = "" if len(targets) == 1 else "@" + prop
+            items.append({"name": "seeded/" + os.path.basename(d) + suffix, "property": prop, "description": meta.get("what", ""), "expect": meta.get("expect", "caught"),
+                          "patch_file": patch_p})
     if only:
         items = [i for i in items if only in i["name"]]
     return items
